@@ -63,6 +63,7 @@ Fails(e) == CASE e.op = "gate" -> FailsGate(e)
               [] e.op = "conc_file" -> Chk(e.out = "ok" /\ e.n = Len(e.inputs), "concurrent ReadFile failed or delivered the wrong number of records")
                                         \o Chk(e.n # Len(e.inputs) \/ \A i \in 1..Len(e.inputs) : (i % 3 = 1) \/ SameValue(e.inputs[i], e.value.c[i]),
                                                "a record retained from a concurrent ReadFile (its bank still open) no longer holds what the file contains")
+              [] e.op = "progress" -> Chk(e.completed, "deadlock: " \o e.what \o " never completed (the lock model is deadlock-free, see Concurrency.cfg)")
               [] e.op = "race" -> Chk(~e.detected, "the race detector reported a data race")
               [] e.op = "conc_crash" -> <<"the stress process crashed: " \o e.detail>>
               [] OTHER -> <<"unknown event">>
